@@ -2,6 +2,7 @@ package rules
 
 import (
 	"fmt"
+	"go/types"
 
 	"golang.org/x/tools/go/ssa"
 
@@ -16,7 +17,8 @@ func init() {
 		Explain: "Decides the structural half of 'looking the key up reports that same shard'. (S1 index freshness) the public-key index is rebuilt (fillPublicKeyToValidatorMap) after the new configuration is installed " +
 			"(setNodesPerShards) on every path of EpochStartPrepare and of the constructor. (S2 lookup determinism) the index is built from the per-epoch maps in sorted epoch order, and every map range in the cone of " +
 			"fillPublicKeyToValidatorMap / computeNodesConfigFromList is order-independent, so the newest epoch wins for every node alike. A stale index answers with the previous epoch's shard. " +
-			"Not decided (value-level): uniqueness of a key across the reconstructed lists (computeNodesConfigFromList arithmetic).",
+			"(S3 one place per entry) one pass through the loop of computeNodesConfigFromList over validatorInfos inserts into the maps installed as eligibleMap/waitingMap at most once, callees that receive those maps counted with their per-call maximum (path-count over the loop body DAG). " +
+			"Not decided (value-level): uniqueness of a key across distinct validator-info entries.",
 		Run: runC16,
 	})
 }
@@ -50,6 +52,7 @@ func runC16(c *core.Ctx) {
 	shCone := shardingCone(c, [][2]string{{"indexHashedNodesCoordinator", "EpochStartPrepare"}, {"randHashShuffler", "UpdateNodeLists"}})
 	checkValidatorResultsUsed(c, "C16/validator-results-used", shCone)
 	c.Floor("C16/validator-results-used", 10)
+	c16OnePlacement(c)
 	// the merge loop over epochs ranges over the sorted epoch list, not over the map
 	if fn := anchorM(c, "sharding", "indexHashedNodesCoordinator", "fillPublicKeyToValidatorMap"); fn != nil {
 		pkF := c.P.Field("sharding", "indexHashedNodesCoordinator", "publicKeyToValidatorMap")
@@ -77,5 +80,93 @@ func runC16(c *core.Ctx) {
 			}
 		})
 		c.Check(ok, "C16/newest-epoch-wins", "fillPublicKeyToValidatorMap/merge", fn.Pos(), "per-epoch maps are merged by a loop over the sorted epoch list", why)
+	}
+}
+
+// c16OnePlacement: list reconstruction gives each validator-info entry at most one place in
+// eligible ∪ waiting: on one pass through the loop over validatorInfos at most one insertion into
+// the maps that become epochNodesConfig.eligibleMap / waitingMap happens (insertions made by a
+// callee that receives those maps are counted with the callee's per-call maximum).
+func c16OnePlacement(c *core.Ctx) {
+	fn := anchorM(c, "sharding", "indexHashedNodesCoordinator", "computeNodesConfigFromList")
+	if fn == nil {
+		return
+	}
+	c.Analysed(fname(fn))
+	placeMaps := map[ssa.Value]string{}
+	core.Instrs(fn, func(in ssa.Instruction) {
+		st, ok := in.(*ssa.Store)
+		if !ok {
+			return
+		}
+		fa, ok := st.Addr.(*ssa.FieldAddr)
+		if !ok {
+			return
+		}
+		if f := core.FieldOfAddr(fa); f != nil && (f.Name() == "eligibleMap" || f.Name() == "waitingMap") {
+			if _, isMap := st.Val.Type().Underlying().(*types.Map); isMap {
+				placeMaps[st.Val] = f.Name()
+			}
+		}
+	})
+	if len(placeMaps) != 2 {
+		c.Undecided("C16/one-placement-per-entry", "computeNodesConfigFromList", fn.Pos(), fmt.Sprintf("expected the two maps installed as eligibleMap and waitingMap, found %d", len(placeMaps)))
+		return
+	}
+	var weight func(f *ssa.Function, maps map[ssa.Value]bool, depth int) func(in ssa.Instruction) int
+	calleeMax := func(call *ssa.Call, maps map[ssa.Value]bool, depth int) int {
+		callee := call.Call.StaticCallee()
+		if callee == nil || len(callee.Blocks) == 0 || depth > 3 {
+			return 0
+		}
+		sub := map[ssa.Value]bool{}
+		for i, a := range call.Call.Args {
+			if maps[a] && i < len(callee.Params) {
+				sub[callee.Params[i]] = true
+			}
+		}
+		if len(sub) == 0 {
+			return 0
+		}
+		c.Analysed(fname(callee))
+		max := 0
+		for _, cnt := range core.CountEvents(callee, weight(callee, sub, depth+1), core.AnyReturn) {
+			if cnt.Max > max {
+				max = cnt.Max
+			}
+		}
+		return max
+	}
+	weight = func(f *ssa.Function, maps map[ssa.Value]bool, depth int) func(in ssa.Instruction) int {
+		return func(in ssa.Instruction) int {
+			switch x := in.(type) {
+			case *ssa.MapUpdate:
+				if maps[x.Map] {
+					return 1
+				}
+			case *ssa.Call:
+				return calleeMax(x, maps, depth)
+			}
+			return 0
+		}
+	}
+	top := map[ssa.Value]bool{}
+	for m := range placeMaps {
+		top[m] = true
+	}
+	found := false
+	for _, l := range core.Loops(fn) {
+		src := l.RangeSource()
+		if src == nil || len(fn.Params) < 3 || src != ssa.Value(fn.Params[2]) {
+			continue
+		}
+		found = true
+		n := l.MaxPerIteration(fn, weight(fn, top, 0))
+		c.Check(n == 1, "C16/one-placement-per-entry", "computeNodesConfigFromList/loop over validatorInfos", fn.Pos(),
+			"one pass through the loop inserts the entry's validator at most once into the eligible/waiting maps",
+			fmt.Sprintf("one pass through the loop can insert the entry's validator %d times into the eligible/waiting maps (callees included): the validator gets two places in the new epoch", n))
+	}
+	if !found {
+		c.Undecided("C16/one-placement-per-entry", "computeNodesConfigFromList", fn.Pos(), "no loop over the validatorInfos parameter")
 	}
 }
